@@ -49,6 +49,13 @@ type Item struct {
 	// Calls maps Go callee names to Coq function names (already defined
 	// earlier in the same generated file or imported).
 	Calls map[string]string `json:"calls"`
+	// Stmt selects one statement of Func by source-text prefix (kind "expr", see ext_expr.go).
+	Stmt string `json:"stmt"`
+	// Part = "init" selects the init statement of the matched `if` instead of its condition.
+	Part string `json:"part"`
+	// Also lists locals (typically renamed receiver fields) appended to every returned
+	// tuple, so that a method's state update is part of the translation (ext_mtproto.go).
+	Also []string `json:"also"`
 	// VarArgs: callee (Go name) -> number of fixed arguments; the remaining
 	// (variadic) arguments are packed into a Coq list (b-exchange, C13).
 	VarArgs map[string]int `json:"varargs"`
@@ -185,6 +192,9 @@ func (pc *pkgConsts) eval(e ast.Expr, iota int64) (constant.Value, bool) {
 			if v, ok := stdSizes[id.Name+"."+x.Sel.Name]; ok {
 				return constant.MakeInt64(v), true
 			}
+			if v, ok := extSelConst(id.Name, x.Sel.Name); ok { // ext_transfer.go: constants of another repo package
+				return v, true
+			}
 			if id.Name == "math" {
 				switch x.Sel.Name {
 				case "MaxInt32":
@@ -238,6 +248,7 @@ func (pc *pkgConsts) eval(e ast.Expr, iota int64) (constant.Value, bool) {
 // ---------- function translation ----------
 
 type tr struct {
+	named  []string // named results (for bare returns)
 	it     Item
 	pc     *pkgConsts
 	used   map[string]bool // package constants referenced
@@ -283,6 +294,11 @@ func (t *tr) expr(e ast.Expr) string {
 		return t.expr(x.X)
 	case *ast.BasicLit:
 		v := constant.MakeFromLiteral(x.Value, x.Kind, 0)
+		if v.Kind() == constant.Float { // integral float literal such as 1e9
+			if iv := constant.ToInt(v); iv.Kind() == constant.Int {
+				v = iv
+			}
+		}
 		if v.Kind() != constant.Int {
 			die("%s: non-integer literal %s", t.it.Func, x.Value)
 		}
@@ -419,13 +435,13 @@ func (t *tr) assigned(stmts []ast.Stmt, acc map[string]bool) {
 		case *ast.AssignStmt:
 			if x.Tok != token.DEFINE {
 				for _, l := range x.Lhs {
-					if id, ok := l.(*ast.Ident); ok {
+					if id, ok := t.lhsIdent(l); ok {
 						acc[id.Name] = true
 					}
 				}
 			}
 		case *ast.IncDecStmt:
-			if id, ok := x.X.(*ast.Ident); ok {
+			if id, ok := t.lhsIdent(x.X); ok {
 				acc[id.Name] = true
 			}
 		case *ast.IfStmt:
@@ -531,10 +547,17 @@ func (t *tr) stmts(list []ast.Stmt, tail string) string {
 		for _, r := range x.Results {
 			rs = append(rs, t.expr(r))
 		}
+		if len(x.Results) == 0 { // bare return: the named results
+			rs = append(rs, t.named...)
+		}
+		rs = append(rs, t.it.Also...)
+		if len(rs) == 0 {
+			die("%s: return without values", t.it.Func)
+		}
 		return tuple(rs)
 	case *ast.DeclStmt:
 		gd := x.Decl.(*ast.GenDecl)
-		if gd.Tok != token.VAR {
+		if gd.Tok != token.VAR && gd.Tok != token.CONST { // local const blocks are let-bound like vars (C35)
 			die("%s: declaration not understood: %s", t.it.Func, show(s))
 		}
 		out := ""
@@ -559,7 +582,7 @@ func (t *tr) stmts(list []ast.Stmt, tail string) string {
 		}
 		var names, vals []string
 		for i, l := range x.Lhs {
-			id, ok := l.(*ast.Ident)
+			id, ok := t.lhsIdent(l)
 			if !ok {
 				die("%s: assignment target not understood: %s", t.it.Func, show(s))
 			}
@@ -596,7 +619,7 @@ func (t *tr) stmts(list []ast.Stmt, tail string) string {
 		}
 		return "let " + pattern(names) + " := " + tuple(vals) + " in\n  " + t.stmts(rest, tail)
 	case *ast.IncDecStmt:
-		id, ok := x.X.(*ast.Ident)
+		id, ok := t.lhsIdent(x.X)
 		if !ok {
 			die("%s: inc/dec target not understood: %s", t.it.Func, show(s))
 		}
@@ -808,6 +831,16 @@ func main() {
 					fmt.Fprintf(&sb, "Definition c_%s%s : Z := %s.\n", it.Prefix, n, zlit(v))
 				case constant.Bool:
 					fmt.Fprintf(&sb, "Definition c_%s%s : bool := %v.\n", it.Prefix, n, constant.BoolVal(v))
+				case constant.String:
+					// string constant -> list of its bytes (cons/nil: no notation import needed)
+					str := constant.StringVal(v)
+					var lb strings.Builder
+					for i := 0; i < len(str); i++ {
+						fmt.Fprintf(&lb, "(cons %d ", str[i])
+					}
+					lb.WriteString("nil")
+					lb.WriteString(strings.Repeat(")", len(str)))
+					fmt.Fprintf(&sb, "Definition c_%s%s : list Z := %s. (* %q *)\n", it.Prefix, n, lb.String(), str)
 				default:
 					die("constant %s in %s has unsupported kind", n, dir)
 				}
@@ -906,6 +939,7 @@ func main() {
 				if fd.Type.Results != nil {
 					for _, r := range fd.Type.Results.List {
 						for _, n := range r.Names {
+							t.named = append(t.named, n.Name)
 							t.locals[n.Name] = true
 							pre += "let " + n.Name + " := 0 in\n  "
 						}
@@ -930,6 +964,14 @@ func main() {
 					sb.WriteString(d)
 				}
 				fmt.Fprintf(&sb, "(* from %s : %s *)\nDefinition %s %s : %s :=\n  %s.\n", it.File, it.Func, it.Name, strings.Join(ps, " "), ret, body)
+			case "bytesvar", "expr":
+				extItem(&sb, *repo, it, pc, emitConst, wrapName) // ext_expr.go
+			case "forloop":
+				extTransferItem(&sb, *repo, it, pc, emitConst, wrapName) // ext_transfer.go
+			case "callarg", "localvar":
+				extMtItem(&sb, *repo, it, pc) // ext_mtproto.go
+			case "blockops":
+				extBlockOps(&sb, *repo, it) // ext_blockops.go
 			default:
 				die("unknown item kind %q", it.Kind)
 			}
